@@ -13,11 +13,14 @@
 (* switched on as it is for the command line); a gen event also carries `msgs`, the [ info ] / [ warning ] / [ error ] messages    *)
 (* that the applied blocks and links attached to the molecule built.  The law: TGen has NO guard on tlog or msgs - a run that      *)
 (* passed mapping and link application has written its file, and the file reads as the molecule built, in every message state.    *)
+(* The ENVIRONMENT is state as well: tenv = the directories the include search path of the environment lists (GMXLIB; a setenv  *)
+(* event changes it), and the paths "L:P1" .. stand for files of the same names P1 .. in such a library directory (written by gen   *)
+(* events with -o <library>/P1.itp).  TRead has no guard on either: the topology in the run directory reads the file next to it.  *)
 EXTENDS ItpRoundTrip, Json, IOUtils
-VARIABLES tid, l, tfs, tlog
+VARIABLES tid, l, tfs, tlog, tenv
 Doc == JsonDeserialize(IOEnv.TRACE_FILE)
 Traces == Doc.traces
-TPaths == {"P1", "P2", "P3"}
+TPaths == {"P1", "P2", "P3", "L:P1", "L:P2", "L:P3"}
 ASSUME TLCSet(1, {}) /\ TLCSet(2, [t \in 1..Len(Traces) |-> 0])
 Ev == Traces[tid][l]
 FixB(p) == [p EXCEPT !.inter = [i \in DOMAIN p.inter |-> [p.inter[i] EXCEPT !.sec = FileSec(@)]]]
@@ -27,26 +30,28 @@ Logged(e) == [v \in Lv |-> tlog[v] + e.logged[v]]
 TGen == /\ Ev.op = "gen" /\ Ev.written
         /\ LET r == Read(Ev.lines) IN r.ok /\ SameFast(r, FixB(Ev.built))
         /\ tfs' = [tfs EXCEPT ![Ev.path] = Ev.lines]
-        /\ tlog' = Logged(Ev)
+        /\ tlog' = Logged(Ev) /\ tenv' = tenv
+\* the environment changes between two operations
+TEnv == /\ Ev.op = "setenv" /\ tenv' = Ev.dirs /\ tfs' = tfs /\ tlog' = tlog
 \* a run that was refused before link application had ended: no file is claimed; what it logged stays with the process
-TOther == /\ Ev.op = "other" /\ tfs' = tfs /\ tlog' = Logged(Ev)
+TOther == /\ Ev.op = "other" /\ tfs' = tfs /\ tlog' = Logged(Ev) /\ tenv' = tenv
 TRead == /\ Ev.op = "read" /\ Ev.readok
          /\ Ev.now = tfs[Ev.path]                                   \* nothing but the last write to this path decides its content
          /\ LET r == Read(tfs[Ev.path]) IN r.ok /\ SameFast(Ev.read, r) /\ SameFast(Ev.read2, r)
-         /\ tfs' = tfs /\ tlog' = Logged(Ev)
+         /\ tfs' = tfs /\ tlog' = Logged(Ev) /\ tenv' = tenv
 \* MetaMolecule.from_itp into the one force field of the process, whatever it holds (the library, molecules read before): the same law
 TReadFF == /\ Ev.op = "readff" /\ Ev.readok
            /\ Ev.now = tfs[Ev.path]
            /\ LET r == Read(tfs[Ev.path]) IN r.ok /\ SameFast(Ev.read, r)
-           /\ tfs' = tfs /\ tlog' = Logged(Ev)
+           /\ tfs' = tfs /\ tlog' = Logged(Ev) /\ tenv' = tenv
 Frozen == /\ mol = 0 /\ pc = "trace" /\ out = <<>> /\ secs = {} /\ cur = "" /\ groups = <<>> /\ pend = <<>> /\ gopen = NoGuard
           /\ late = FALSE /\ rd = R0 /\ ri = 1
-TInit == Frozen /\ tid \in 1..Len(Traces) /\ l = 1 /\ tfs = [p \in TPaths |-> <<>>] /\ tlog = [v \in Lv |-> 0]
-TNext == /\ l <= Len(Traces[tid]) /\ (TGen \/ TRead \/ TReadFF \/ TOther) /\ l' = l + 1 /\ tid' = tid /\ UNCHANGED vars
-TSpec == TInit /\ [][TNext]_<<vars, tid, l, tfs, tlog>>
+TInit == Frozen /\ tid \in 1..Len(Traces) /\ l = 1 /\ tfs = [p \in TPaths |-> <<>>] /\ tlog = [v \in Lv |-> 0] /\ tenv = <<>>
+TNext == /\ l <= Len(Traces[tid]) /\ (TGen \/ TRead \/ TReadFF \/ TOther \/ TEnv) /\ l' = l + 1 /\ tid' = tid /\ UNCHANGED vars
+TSpec == TInit /\ [][TNext]_<<vars, tid, l, tfs, tlog, tenv>>
 \* the process state of the model is the process state of the run: every event also carries `seen`, the records by level the process
 \* had logged when the operation began (the same handler, which lives as long as the process)
-SeenIsLog == l <= Len(Traces[tid]) => \A v \in Lv : Ev.seen[v] = tlog[v]
+SeenIsLog == (l <= Len(Traces[tid]) /\ Ev.op # "setenv") => \A v \in Lv : Ev.seen[v] = tlog[v]
 Mark == (l = Len(Traces[tid]) + 1) => TLCSet(1, TLCGet(1) \cup {tid})
 Prog == TLCSet(2, [TLCGet(2) EXCEPT ![tid] = IF @ < l - 1 THEN l - 1 ELSE @])
 Accepted == IF TLCGet(1) = 1..Len(Traces) THEN TRUE
